@@ -234,7 +234,7 @@ fn foreign_packages(rng: &mut Rng, n: usize) -> Vec<(String, Vec<u8>)> {
             files.push(f);
             contents.push(c);
         }
-        let variant = k % 5;
+        let variant = k % 6;
         let ghost = rng.usize(nfiles - 1);
         if variant == 0 {
             files[ghost].flags |= 1 << 6;
@@ -288,6 +288,19 @@ fn foreign_packages(rng: &mut Rng, n: usize) -> Vec<(String, Vec<u8>)> {
                 }
                 a.extend(mcpio::enc_trailer());
                 ("stripped-out-of-order", a, None)
+            }
+            4 => {
+                // the numeric fields in UPPER-case hex, as GNU cpio writes them
+                let mut a = Vec::new();
+                for i in 0..nfiles {
+                    let mut e = entry(i);
+                    e[6..110].make_ascii_uppercase();
+                    a.extend(e);
+                }
+                let mut t = mcpio::enc_trailer();
+                t[6..110].make_ascii_uppercase();
+                a.extend(t);
+                ("upper-case-hex", a, Some("gzip"))
             }
             _ => {
                 let mut a = Vec::new();
